@@ -8,7 +8,7 @@ import sys
 import warnings
 from typing import Any, Callable
 
-from vf.sim import core, monitors
+from vf.sim import core, rotation, monitors
 from vf.sim.device import DeviceConfig, SimDevice
 
 MAX_STEPS = 100000
@@ -127,6 +127,7 @@ class Sim:
         import aiohappyeyeballs.impl as impl
 
         monitors.install()
+        rotation.new_case()
         monitors.CURRENT = self
         self._old_impl_socket = impl.socket
         impl.socket = core.make_socket_shim(self.net)
@@ -309,7 +310,7 @@ class Sim:
                 asyncio._set_running_loop(running)  # noqa: SLF001
         else:
             cli = APIClient(address, port, password, **kw)
-        if _CLIENTS_MADE % 4 == 3:
+        if rotation.decide("client_debug", (False, False, False, True)):
             # every 4th client of the process runs with the library's debug flag on: the debug-only branches (extra logging, but also
             # control flow that differs, e.g. in the keep-alive sender) are part of the code under test
             cli.set_debug(True)
